@@ -239,7 +239,15 @@ func convert(e filesystem.Extractor, pkgs []*extractor.Package, tag string, is i
 				is.add("no-location")
 				det(pk, "no-location", "")
 			}
-			_ = e.Ecosystem(pk)
+			func() { // the ecosystem name never panics
+				defer func() {
+					if r := recover(); r != nil {
+						is.add("%secosystem-panic", tag)
+						det(pk, tag+"ecosystem-panic", "")
+					}
+				}()
+				_ = e.Ecosystem(pk)
+			}()
 			u := e.ToPURL(pk)
 			if u == nil {
 				return
@@ -676,6 +684,23 @@ var osReleases = []struct{ name, content string }{
 	{"arch", "ID=arch\nBUILD_ID=rolling\n"},
 	{"cos", "ID=cos\nVERSION=113\nVERSION_ID=113\nBUILD_ID=18244.85.49\n"},
 	{"weird", "ID=\"we ird/o:s\"\nVERSION_ID=\"1 2#3?4\"\nVERSION_CODENAME=\"co de&name%\"\nBUILD_ID=\"b+1\"\n"},
+	// VERSION_ID shapes (the OS extractors' Ecosystem() / ToPURL() parse it): leading v, trailing .x, edge.<date>, no dot, one dot at the
+	// end / start, empty, very long, quoted with spaces; fields absent one at a time
+	{"vid-v", "ID=alpine\nVERSION_ID=v24.06\n"},
+	{"vid-edge", "ID=alpine\nVERSION_ID=edge.20250108\nVERSION_CODENAME=edge\n"},
+	{"vid-x", "ID=alpine\nVERSION_ID=3.x\n"},
+	{"vid-nodot", "ID=debian\nVERSION_ID=12\nVERSION_CODENAME=bookworm\n"},
+	{"vid-dots", "ID=ubuntu\nVERSION_ID=.\nVERSION_CODENAME=.\n"},
+	{"vid-enddot", "ID=fedora\nVERSION_ID=39.\nBUILD_ID=.39\n"},
+	{"vid-startdot", "ID=alpine\nVERSION_ID=.19\n"},
+	{"vid-empty", "ID=alpine\nVERSION_ID=\nVERSION_CODENAME=\nBUILD_ID=\n"},
+	{"vid-long", "ID=cos\nVERSION_ID=" + strings.Repeat("9", 300) + "." + strings.Repeat("x", 300) + "\nVERSION=" + strings.Repeat("1.", 200) + "\n"},
+	{"vid-quoted", "ID=\"arch\"\nVERSION_ID=\"rolling release 'x'\"\nBUILD_ID='a b'\n"},
+	{"vid-three", "ID=alpine\nVERSION_ID=3.19.1.2-r0_alpha\n"},
+	{"only-id", "ID=openwrt\n"},
+	{"only-vid", "VERSION_ID=3.19\n"},
+	{"only-codename", "VERSION_CODENAME=jammy\n"},
+	{"id-empty", "ID=\nVERSION_ID=1.2\nVERSION_CODENAME=c\nBUILD_ID=b\n"},
 }
 
 func runLayout(scratch, variant string) string {
@@ -724,6 +749,11 @@ func runLayout(scratch, variant string) string {
 		}
 		sort.Strings(names)
 		for _, n := range names {
+			// the VERSION_ID / absent-field variants are about the OS extractors (the ones that read os-release): only those run
+			osOnly := strings.HasPrefix(variant, "vid-") || strings.HasPrefix(variant, "only-") || strings.HasPrefix(variant, "id-")
+			if osOnly && !strings.HasPrefix(n, "os/") {
+				continue
+			}
 			for _, init := range el.All[n] {
 				exs = append(exs, init())
 			}
